@@ -48,6 +48,7 @@ def _case(draw, tier):
         "mode": mode,
         "aggs": draw(st.lists(st.sampled_from(AGGS), min_size=1, max_size=4, unique=True)),
         "dest": draw(st.sampled_from(["face", "edge"])),
+        "then_subset": draw(st.sampled_from([None, None, True])) and draw(st.lists(st.integers(0, 200), min_size=1, max_size=10)),
     }
     if mode == "agg":
         c["data"] = draw(datagen.data_spec(n_node, vmax=3))
@@ -109,15 +110,30 @@ def run_case(case, ctx):
     spec = case["data"]
     da, arr = datagen.uxda(g, spec, "n_node", g.n_node)
     dest = case["dest"]
+    _judge(ux, g, da, arr, case, ctx, fails, "")
+    sub = case.get("then_subset")
+    if sub and not fails and len(faces) >= 2:
+        # history: the same aggregations on a subset taken from the grid that has just been aggregated on
+        idx = sorted({i % len(faces) for i in sub})
+        sda = da.isel(n_face=idx)
+        _judge(ux, sda.uxgrid, sda, np.asarray(sda.values), case, ctx, fails, ":subset-after-aggregation")
+    return fails
+
+
+def _judge(ux, g, da, arr, case, ctx, fails, tag):
+    INT_DTYPE, FILL = build.consts()
+    spec = case["data"]
+    dest = case["dest"]
     if dest == "face":
-        elems = [list(f) for f in faces]
+        conn = np.asarray(g.face_node_connectivity.values).reshape(g.n_face, -1)
+        elems = [[int(j) for j in row if j != FILL] for row in conn]
     else:
         elems = [[int(a), int(b)] for a, b in np.asarray(g.edge_node_connectivity.values)]
     rtol = 1e-5 if spec["dtype"] == "float32" else 1e-12
     for agg in case["aggs"]:
         ctx.ev("equals_per_element_reduction")
         res = getattr(da, "topological_" + agg)(destination=dest)
-        site = f"{agg}->{dest}"
+        site = f"{agg}->{dest}{tag}"
         # dims / grid
         ctx.ev("dims_grid")
         want_dims = tuple(datagen.lead_dims(spec)) + ("n_" + dest,)
